@@ -17,23 +17,25 @@ from droop.election import Election
 
 ID = 'C16'
 LEVEL = 'exploration'
-N = {'quick': 24000, 'thorough': 2000000}
+N = {'quick': 24000, 'thorough': 800000}
 RULE = ('texts from five generators: (0) well-formed files with 0-3 injected faults from a catalogue aimed at the hand-written error paths, '
         '(1) token soup over the BLT alphabet, (2) truncations of valid files at token and character boundaries, (3) single-token '
-        'deletion/duplication/replacement, (4) arbitrary unicode text; non-trivial = the text has >= 4 tokens and its first two tokens are '
+        'deletion/duplication/replacement, (4) arbitrary unicode text, (5, thorough) coverage-guided byte-level fuzzing decoded to text or token sequences; non-trivial = the text has >= 4 tokens and its first two tokens are '
         'numeric (it is not rejected at the first token); distinct = distinct text')
 TECHNIQUE = 'fuzzing with a structured (grammar-with-faults) generator under Hypothesis; oracle: valid-profile invariants or ElectionProfileError, constructor total on 11 rules'
 LEVEL_TEXT = 'generated malformed and well-formed texts; every outcome other than a structurally valid profile or ElectionProfileError is a violation'
-LEVEL_NOTE = 'a 20 s alarm per text turns a hang into a violation (typical parse time is < 1 ms); atheris campaign is an optional thorough-tier addition'
+LEVEL_NOTE = ('a 20 s alarm per text turns a hang into a violation (typical parse time is < 1 ms); the thorough tier adds 16 coverage-guided '
+              'atheris/libFuzzer campaigns (1.5*10^6 runs each, fixed -seed and -runs, fresh corpus; even shards empty corpus, odd shards the '
+              'repository .blt files) with the same oracle inside the target; if atheris cannot be imported the tier says so in evidence')
 GUARDS = {'all': {'reaches-ballots': 0.2, 'accepted': 0.02}}
 
 ALPHABET = ['0', '1', '2', '3', '4', '10', '255', '256', '257', '-1', '-2', '-3', '-0', '=', '1=2', '2=2', '1=', '=1', '0=0', '[tie', '[nick', '[droop',
             '[withdrawn', '[undeclared', '[x]', '[tie]', ']', '1]', 'a]', '(', ')', '(id)', '(a', 'b)', '"', '""', '"A"', '"A', 'B"', '"T"', '/*', '*/',
-            '/*x*/', '#', '#x', 'a', 'b', 'meek', 'precision=4', '﻿', '٣', '²', '1.0', '+1', '1_0', '\n', '\n', '\r\n', '\t']
+            '/*x*/', '#', '#x', 'a', 'b', 'meek', 'precision=4', '99999999999999999999999', '18446744073709551616', '4294967296', '﻿', '٣', '²', '1.0', '+1', '1_0', '\n', '\n', '\r\n', '\t']
 FAULTS = ['ncand+1', 'ncand-1', 'ncand0', 'nseats0', 'nseats+', 'minus-ncand', 'minus-ncand+1', 'minus-big', 'dup-rank', 'dup-withdrawn', 'dup-equal',
           'dup-withdrawn-equal', 'mix-id-mult', 'unterminated-option', 'unterminated-quote', 'unterminated-comment', 'unterminated-id', 'drop-zero',
           'drop-final-zero', 'drop-names', 'drop-title', 'option-after-ballot', 'bad-cid', 'nick-dup', 'tie-short', 'withdrawn-dup', 'neg-mult',
-          'empty-ballot', 'cut-at-names', 'all-withdrawn']
+          'empty-ballot', 'cut-at-names', 'all-withdrawn', 'ncand-huge']
 
 
 def inject(d, toks, case, fault):
@@ -116,6 +118,10 @@ def inject(d, toks, case, fault):
         q = [i for i, t in enumerate(toks) if t.startswith('"')]
         if q:
             del toks[q[0] + d.int(0, min(2, len(q) - 1)):]
+    elif fault == 'ncand-huge':
+        big = d.choice([2 ** 32, 2 ** 64, 10 ** 21, 10 ** 36])
+        toks[0] = str(big)
+        toks[fb:fb] = ['1', str(big - d.int(0, 1)), d.choice(['1', str(big // 7)]), '0']
     elif fault == 'all-withdrawn':
         toks[2:2] = ['-%d' % c for c in range(1, nc + 1)]
     return toks
@@ -189,6 +195,12 @@ RULES = model.ALL_RULES
 
 def check(case):
     res = Result()
+    if case.get('origin') == 'atheris-stats':
+        res.evals = max(1, case.get('execs', 0))
+        res.count('atheris executions', case.get('execs', 0))
+        if case.get('unavailable') or not case.get('execs'):
+            res.tag('atheris-campaign-did-not-run')
+        return res
     text = case['text']
     toks = text.split()
     signal.signal(signal.SIGALRM, _alarm)
@@ -252,3 +264,57 @@ def shrink_candidates(case):
 
 def valid_case(case):
     return isinstance(case.get('text'), str)
+
+
+# ---- thorough tier: coverage-guided campaign (atheris / libFuzzer), 16 independent shards
+ATHERIS_RUNS = {'quick': 0, 'thorough': 1500000}
+
+
+def extra_chunks(tier, seed):
+    return [('atheris', s) for s in range(16)] if ATHERIS_RUNS.get(tier) else []
+
+
+def extra_cases(tier, seed, chunk):
+    """run one libFuzzer campaign in a subprocess (fresh corpus directory; even shards start from an empty corpus, odd shards from
+    the repository's own .blt files); yield the recorded witnesses, a sample of the final corpus and one statistics pseudo-case"""
+    import glob
+    import json
+    import os
+    import re
+    import shutil
+    import subprocess
+    import sys
+    import tempfile
+    from .. import VERIF, REPO
+    _, shard = chunk
+    tmp = tempfile.mkdtemp(prefix='c16-fuzz-')
+    try:
+        corpus = os.path.join(tmp, 'corpus')
+        os.makedirs(corpus)
+        if shard % 2:
+            for i, fn in enumerate(sorted(glob.glob(os.path.join(REPO, 'test', 'blt', '**', '*.blt'), recursive=True))):
+                data = open(fn, 'rb').read()
+                if len(data) <= 4000:
+                    open(os.path.join(corpus, 'seed%03d' % i), 'wb').write(b'\x00' + data)
+        out = os.path.join(tmp, 'out.jsonl')
+        runs = ATHERIS_RUNS[tier]
+        env = dict(os.environ, PYTHONHASHSEED='0')
+        r = subprocess.run([sys.executable, '-m', 'vf.fuzz_c16', out, '-runs=%d' % runs, '-seed=%d' % (seed * 1000 + shard + 1),
+                            '-max_len=%d' % (4096 if shard % 2 else 256), '-timeout=60', corpus],
+                           cwd=VERIF, env=env, capture_output=True, text=True)
+        m = re.search(r'Done (\d+) runs', r.stderr + r.stdout)
+        execs = int(m.group(1)) if m else 0
+        unavailable = 'No module named' in (r.stderr or '') and 'atheris' in r.stderr
+        yield dict(text='', origin='atheris-stats', execs=execs, unavailable=unavailable, rc=r.returncode,
+                   err='' if m else (r.stderr or '')[-300:])
+        if os.path.exists(out):
+            for line in open(out):
+                d = json.loads(line)
+                if 'text' in d:
+                    yield dict(text=d['text'], origin='atheris')
+        from ..fuzz_decode import decode
+        for fn in sorted(os.listdir(corpus))[:300]:
+            if not fn.startswith('seed'):
+                yield dict(text=decode(open(os.path.join(corpus, fn), 'rb').read()), origin='atheris-corpus')
+    finally:
+        shutil.rmtree(tmp, ignore_errors=True)
